@@ -170,11 +170,19 @@ def summaries(log):
         log.append(('rfield', tag, frozenset(items['weights'].store.deps)))
         return f
 
+    def bound(q, args, kw):
+        """parameter name -> value by the signature read from the current source (positional and keyword forms are the same call)"""
+        from .c0910 import bind_call
+        try:
+            return bind_call(q, list(args), dict(kw))
+        except Exception as e:
+            raise cx.Unsupported(f'call of {q} cannot be bound to its signature ({e})')
+
     def field(it, args, kw, node):
-        data = kw.get('data', args[1] if len(args) > 1 else None)
-        return field_obj(cx.deps_of(data))
+        return field_obj(cx.deps_of(bound('fields.Field', args, kw).get('data')))
 
     def edges_to_vol(it, args, kw, node):
+        kw = bound('maps.interp_edges_to_vol_averages', args, kw)
         tags = cx.deps_of(kw.get('ex')) | cx.deps_of(kw.get('ey')) | cx.deps_of(kw.get('ez'))
         for k in ('ox', 'oy', 'oz'):
             o = kw.get(k)
@@ -185,20 +193,24 @@ def summaries(log):
         return None
 
     def vol_adj(it, args, kw, node):
+        kw = bound('maps._interp_volume_average_adj', args, kw)
         o = kw.get('oval')
         o.store.deps |= cx.deps_of(kw.get('nval'))
         return None
 
     def chain(it, args, kw, node):
-        g = args[-2]
+        b = dict(zip(['self', 'gradient', 'mapped'], args))
+        b.update(kw)
+        g = b.get('gradient')
         if isinstance(g, cx.NDArr):
-            g.store.deps |= cx.deps_of(args[-1])
+            g.store.deps |= cx.deps_of(b.get('mapped'))
         return None
 
     def quiet(it, args, kw, node):
         return None
 
     def interpolate(it, args, kw, node):
+        kw = bound('maps.interpolate', args, kw)
         r = cx.NDArr(cx.Store('interpolated'))
         r.store.deps = set(cx.deps_of(kw.get('values')))
         return r
